@@ -320,6 +320,13 @@ def units_for(prop, tier):
         # the operator returns - the ownership contracts of the three anchor files are re-proved here
         us.append({"runner": "own", "prop": prop, "id": "ownership-conditions/C40", "files": ["reactivex/observable/using.py", "reactivex/operators/_finallyaction.py",
                                                                                               "reactivex/operators/_do.py"]})
+    if prop in ("C18", "C19"):
+        # the handler proofs of the window / group operators are about a subscription that is LIVE; a subscriber may unsubscribe from inside the
+        # on_next that hands it a window / group, and what the handler still does afterwards stands behind a re-check of the subscription
+        # (`if <owned disposable>.is_disposed`) - the after-emission obligations of the ownership analysis (C03), over this property's own files
+        fl = [f_ for f_ in _property_files(prop) if f_.startswith("reactivex/operators/")]
+        if fl:
+            us.append({"runner": "own", "prop": prop, "id": f"ownership-conditions/{prop}", "files": fl, "after_emission": True})
     if "seqlemma" in fams:
         us.append({"runner": "seqlemma", "prop": prop, "id": "specs/c17q.py::queue-functions"})
     if "mcast" in fams:
